@@ -371,7 +371,38 @@ def check_cups(ctx):
                required="Diagram.%s delegates to rigid.%s" % (name, fac), mod=RIG, node=f, sig="delegate-" + name)
 
 
+def check_mappings(ctx):
+    """R04.7: the image of an object / a box is whatever the mapping given to the functor says for it, asked afresh every time: a dict is used as it is, a function is called
+    on the box itself (no memo keyed by a printed form, which would merge boxes that print alike)"""
+    m = ctx.model
+    CAT_ = "discopy.cat"
+    fi = m.func(CAT_ + ".Functor.__init__")
+    ctx.analysed(CAT_ + ".Functor.__init__", CAT_ + ".Functor.ob", CAT_ + ".Functor.ar", CAT_ + ".Quiver.__getitem__", CAT_ + ".Quiver.__init__")
+    a = [x.arg for x in fi.args.args]
+    ctx.need(len(a) >= 3, "cat.Functor.__init__ takes fewer than (ob, ar)")
+    st = [s for s in shape.expand_tuple_assigns(fi.body) if isinstance(s, ast.Assign) and ast.unparse(s.targets[0]) in ("self._ob", "self._ar")]
+    shape.match_stmts(ctx, "R04.7", CAT_ + ".Functor.__init__:mappings", st, ["self._ob = ob", "self._ar = ar"], {a[1]: "ob", a[2]: "ar"}, mod=CAT_, node=fi, sig="functor-mappings", exact=True, required="the two mappings are kept as given")
+    ob = m.func(CAT_ + ".Functor.ob")
+    shape.match(ctx, "R04.7", CAT_ + ".Functor.ob", ret_expr(ob.body), "self._ob if isinstance(self._ob, Mapping) else Quiver(self._ob)", {}, mod=CAT_, node=ob, sig="functor-ob", required="a mapping as it is, a function as a Quiver over it")
+    ar = m.func(CAT_ + ".Functor.ar")
+    shape.match(ctx, "R04.7", CAT_ + ".Functor.ar", ret_expr(ar.body), "self._ar if hasattr(self._ar, '__getitem__') else Quiver(self._ar)", {}, mod=CAT_, node=ar, sig="functor-ar", required="a mapping as it is, a function as a Quiver over it")
+    qi = m.func(CAT_ + ".Quiver.__init__")
+    shape.match_stmts(ctx, "R04.7", CAT_ + ".Quiver.__init__", [s for s in qi.body if isinstance(s, ast.Assign)], ["self._func = func"], {qi.args.args[1].arg: "func"}, mod=CAT_, node=qi, sig="quiver-init", exact=True)
+    qg = m.func(CAT_ + ".Quiver.__getitem__")
+    shape.match_stmts(ctx, "R04.7", CAT_ + ".Quiver.__getitem__", [s for s in qg.body if not (isinstance(s, ast.Expr) and isinstance(s.value, ast.Constant))], ["return self._func(box)"], {qg.args.args[1].arg: "box"}, mod=CAT_, node=qg,
+                      sig="quiver-getitem", exact=True, required="the function applied to the box itself, every time")
+
+
+def ret_expr(body):
+    for st in body:
+        if isinstance(st, ast.Return):
+            return st.value
+    return None
+
+
 def check(ctx):
+    ctx.rule("R04.7", "the mappings of a functor are used as given: dicts as they are, functions called on the box itself (no memo)")
+    ctx.attempt(check_mappings, ctx)
     ctx.rule("R04.1", "the image of an arrow is the fold of `then` over the images of its boxes, starting from the identity on F(dom)")
     ctx.rule("R04.2", "monoidal functor scan: result.cod = F(scan) is a loop invariant; whiskers are F of the row around the box; scan splices box.cod")
     ctx.rule("R04.3", "dispatch: order, totality and structural mapping (Swap->swap, Cup->cups, Cap->caps, dagger, Sum, Bubble, objects in order)")
